@@ -186,9 +186,45 @@ func c14W4(r *core.R) {
 	for _, x := range waits {
 		waitNodes = append(waitNodes, x.n)
 	}
+	// deferred calls run when Close returns, after every plain statement and in reverse order of registration
+	var dCancel, dWait, dOther []*c14Node
+	for _, d := range xg.defers {
+		if len(xg.byNode[d]) == 0 {
+			continue
+		}
+		dc := d.ast.(*ast.DeferStmt).Call
+		switch {
+		case d.ctx != xg.root:
+			dOther = append(dOther, d)
+		case m.isField(xg, xg.canon(d.ctx, dc.Fun, d), m.fCancel):
+			dCancel = append(dCancel, d)
+		case m.isMethodOn(xg, xg.canon(d.ctx, dc, d), m.fWG, "sync.WaitGroup", "Wait"):
+			dWait = append(dWait, d)
+		default:
+			dOther = append(dOther, d)
+		}
+	}
+	xentry := []*c14State{xg.entry}
+	always := func(ns []*c14Node) bool { // some node of ns lies on every path through Close
+		return len(ns) > 0 && len(xg.reach(xentry, c14StopAt(ns...), nil).exits()) == 0
+	}
 	switch {
-	case len(xg.defers) > 0:
-		r.Unknown(c, xg.defers[0].pos(), "Close uses defer (`%s`); the order of deferred calls is not modelled", m.nodeSrc(xg.defers[0]))
+	case len(dOther) > 0:
+		r.Unknown(c, dOther[0].pos(), "Close defers `%s`; only deferred calls of the cancel function and of Wait are modelled", m.nodeSrc(dOther[0]))
+	case len(dWait) > 0 && len(waits) == 0:
+		switch {
+		case !always(dWait):
+			r.Bad(c, dWait[0].pos(), "Close can return without having registered `%s`: the producer goroutine may still be running when Close returns", m.nodeSrc(dWait[0]))
+		case always(cancelNodes):
+			r.OK(c, cancels[0].call.Pos(), "`%s` lies on every path through Close; the deferred `%s` runs when Close returns, after it", src(fs, cancels[0].call), m.nodeSrc(dWait[0]))
+		case always(dCancel) && !xg.reach(xentry, c14StopAt(dWait...), nil).hasNode(dCancel...):
+			r.OK(c, dCancel[0].pos(), "`%s` is registered after `%s` on every path, so it runs first when Close returns", m.nodeSrc(dCancel[0]), m.nodeSrc(dWait[0]))
+		default:
+			r.Bad(c, dWait[0].pos(), "the deferred `%s` is not preceded by the cancel call on every path (a plain call, or a defer registered after it): Close waits for a producer that is blocked in its send until somebody cancels — deadlock when Close is called before the iteration is exhausted", m.nodeSrc(dWait[0]))
+		}
+	case len(dCancel) > 0 || len(dWait) > 0:
+		// a deferred cancel runs after a plain Wait: the same deadlock as waiting first
+		r.Bad(c, append(dCancel, dWait...)[0].pos(), "Close defers `%s` next to a plain Wait: the deferred call runs after the wait — Close waits for a producer that nobody has cancelled", m.nodeSrc(append(dCancel, dWait...)[0]))
 	case len(cancels) == 0:
 		r.Bad(c, m.closeFn.Decl.Pos(), "Close never calls the ordering's cancel function: a producer blocked in its send is not released and the wait for it never ends")
 	case len(waits) == 0:
@@ -235,38 +271,10 @@ func c14W4(r *core.R) {
 	}
 
 	c = "goroutine-defers@producer"
-	var closeDefers, doneDefers []*c14Node
-	closeCalls := map[*ast.CallExpr]bool{}
+	pd := m.producerDefers()
+	closeDefers, doneDefers, closeCalls := pd.closeDefers, pd.doneDefers, pd.closeCalls
 	if m.pg != nil {
 		pg := m.pg
-		for _, d := range pg.defers {
-			if d.ctx != pg.root || len(pg.byNode[d]) == 0 {
-				continue // a defer inside a called function runs when that function returns, not when the goroutine ends
-			}
-			var calls []*ast.CallExpr
-			dc := d.ast.(*ast.DeferStmt).Call
-			if lit, ok := ast.Unparen(dc.Fun).(*ast.FuncLit); ok {
-				for _, st := range lit.Body.List {
-					if es, ok := st.(*ast.ExprStmt); ok {
-						if ce, ok := es.X.(*ast.CallExpr); ok {
-							calls = append(calls, ce)
-						}
-					}
-				}
-			} else {
-				calls = append(calls, dc)
-			}
-			for _, ce := range calls {
-				info := d.ctx.fn.info
-				if builtinName(info, ce) == "close" && len(ce.Args) == 1 && m.isField(pg, pg.canon(d.ctx, ce.Args[0], d), m.fOut) {
-					closeDefers = append(closeDefers, d)
-					closeCalls[ce] = true
-				}
-				if m.isMethodOn(pg, pg.canon(d.ctx, ce, d), m.fWG, "sync.WaitGroup", "Done") {
-					doneDefers = append(doneDefers, d)
-				}
-			}
-		}
 		escapes := func(ds []*c14Node) bool {
 			return len(ds) == 0 || len(pg.reach([]*c14State{pg.entry}, c14StopAt(ds...), nil).exits()) > 0
 		}
@@ -298,20 +306,7 @@ func (m *c14Model) receives(r *core.R) {
 	fs := r.P.Fset
 	g := m.ng
 	c := "recv-select@Next"
-	deferredClose := false
-	if m.pg != nil {
-		for _, d := range m.pg.defers {
-			if d.ctx != m.pg.root {
-				continue
-			}
-			ast.Inspect(d.ast, func(x ast.Node) bool {
-				if ce, ok := x.(*ast.CallExpr); ok && builtinName(d.ctx.fn.info, ce) == "close" && len(ce.Args) == 1 && m.isField(m.pg, m.pg.canon(d.ctx, ce.Args[0], d), m.fOut) {
-					deferredClose = true
-				}
-				return true
-			})
-		}
-	}
+	deferredClose := len(m.producerDefers().closeDefers) > 0
 	type recvSite struct {
 		n  *c14Node
 		ue *ast.UnaryExpr
